@@ -127,6 +127,7 @@
 
 #![warn(clippy::all, clippy::cargo, clippy::pedantic)]
 #![allow(clippy::module_name_repetitions)] // Allows for better API naming
+#![allow(unknown_lints, unexpected_cfgs)] // The verification hooks use a cfg that cargo does not know
 
 pub mod constant;
 pub mod data;
